@@ -8,3 +8,39 @@ from .values import Ref, Elem, Val, NULL, ObjV, SeqV, SetV, MapV, Tup, OptV, NON
 
 def fresh(sort, name="q"):
     return z3.Const(fresh_name(name), sort)
+from .types import NDARRAY
+
+
+def mem(seq, x):
+    """x occurs in the sequence."""
+    from . import engine
+
+    return engine.CURRENT.seq_mem(seq, x)
+
+
+def cdiv(a, b):
+    """ceil(a / b) for b > 0"""
+    return -((-a) / b)
+
+
+def increasing(seq):
+    i, j = z3.Consts(f"{fresh_name('si')} {fresh_name('sj')}", z3.IntSort())
+    (a,) = arrs_of(seq)
+    return z3.ForAll([i, j], z3.Implies(z3.And(i >= 0, i < j, j < seq.n), z3.Select(a, i) < z3.Select(a, j)))
+
+
+def at(seq, i):
+    (a,) = arrs_of(seq)
+    return z3.Select(a, i)
+
+
+def forall(vs, body, patterns=()):
+    """ForAll with patterns when they are valid for the current terms (a pattern can
+    degenerate, e.g. select over a constant array), else without."""
+    vs = vs if isinstance(vs, (list, tuple)) else [vs]
+    if patterns:
+        try:
+            return z3.ForAll(list(vs), body, patterns=list(patterns))
+        except z3.Z3Exception:
+            pass
+    return z3.ForAll(list(vs), body)
